@@ -465,7 +465,8 @@ def agree_ref(ctx, fi, ref_src, title, what=('return', 'heap', 'substores'), rul
         def sell(II, o):
             return [e for e in II.events if e.kind == 'store' and e.data.get('target') == 'name' and e.loops
                     and (o is None or e.owner == o)
-                    and any(e.data['name'] in l.get('carried', ()) and e.data['name'] not in l.get('last_only', ()) for l in e.loops)]
+                    and any(e.data['name'] in l.get('carried', ()) and e.data['name'] not in l.get('last_only', ())
+                            and e.data['name'] not in l.get('induction', ()) for l in e.loops)]
         # (a name re-bound only in the last iteration is not carried from one iteration to the next: every use of it is
         #  compared through its value -- entry value, or the last iteration's -- so the re-binding itself is not an obligation)
         _match_groups(ctx, rule, title, fi, 'loop-carried update', sell(I, own), sell(IR, None),
